@@ -23,6 +23,11 @@ if __name__ == '__main__':
                 keys.append(k)
     state = {'doc_keys': keys}
     out = []
+    class _R(c14.Session):  # only the option resolution of a Session is needed here
+        def __init__(self):
+            pass
+    res = _R()
     for o in case['ops']:
-        out.append(c14.apply(doc, o, state))
+        r = res.resolve(o)
+        out.append([c14.apply(doc, x, state) for x in r] if isinstance(r, list) else c14.apply(doc, r, state))
     json.dump(out, sys.stdout, default=repr)
